@@ -11,6 +11,9 @@ From CG Require Import Spec.Choice.
 From CGgen Require Import Consts.
 From CG Require Import Spec.Mistakes.
 From CG Require Import Spec.Warnings.
+From CG Require Import Model.Minimize.
+From CG Require Import Spec.DfaEquiv.
+From CG Require Import Spec.MinimizeSpec.
 (* add new Require lines above this line *)
 Require Import ExtrOcamlBasic ExtrOcamlString.
 Extraction Language OCaml.
@@ -30,5 +33,13 @@ Separate Extraction
   Warnings.unused_plain
   Warnings.unused_for_shell
   Warnings.undefined_reported
+  Minimize.minimize
+  Minimize.do_minimize
+  DfaEquiv.validate
+  DfaEquiv.equiv_dec
+  DfaEquiv.trim_dec
+  DfaEquiv.distinct_dec
+  DfaEquiv.states
+  MinimizeSpec.wfb
   (* add new roots above this line *)
   Prelude.pow2.
